@@ -31,6 +31,12 @@ def card_vote(cvr, cid, cand):
     """spec-side reading of a card: truthiness of the mark for `cand` in contest `cid` (absent => no vote)"""
     votes = cvr.attrs["votes"]
     inner = votes.vals.get(cid)
+    if isinstance(inner, dict):
+        if cand not in inner:
+            return False
+        v = inner[cand]
+        t = v.truth_term() if isinstance(v, Mark) else icmp("!=", v, 0)
+        return band(bterm(votes.has(cid)), t)
     if inner is None or cand not in inner.pres:
         return False
     v = inner.vals[cand]
@@ -560,3 +566,183 @@ def reset_p_values_post(S, I, variant):
                          bnot(I.truth_term(asn.attrs["proved"]))))
             S.holds(f"[{cid}.{a}] contest records reset", band(bterm(I.equal(con.attrs["p_values"][a], 1)), bnot(I.truth_term(con.attrs["proved"][a]))))
         S.holds(f"[{cid}] max_p = 1", bterm(I.equal(con.attrs["max_p"], 1)))
+
+
+# ------------------------------------------------------------------ C02c / C03c,d / C06d: means, pool means, margins (bounded lists)
+
+def cards_with_values(S, I, n, u_a, pools=("p1", "p2"), con_id="con"):
+    cards, vals = [], []
+    for i in range(n):
+        tp = S.choose(f"tally_pool{i}", list(pools)) if pools else None
+        cvr = rec_card(S, f"cvr{i}", sym_cvr(I, f"cvr{i}", {con_id: ["A", "B"]}, tally_pool=tp))
+        cards.append(cvr)
+        vals.append((cvr, S.real(f"assort_cvr{i}", lo=0, hi=u_a)))
+    return cards, vals
+
+
+LISTN = (("n0",), ("n1",), ("n2",), ("n3",))
+
+
+@script(["C02", "C03"], "Assorter.mean+sum/post (bounded: n cards)", variants=tuple((n[0], s) for n in LISTN for s in ("style", "nostyle")))
+def assorter_mean_post(S, I, variant):
+    n = int(variant[0][1:])
+    use_style = variant[1] == "style"
+    u_a = S.real("u_a", lo=Fraction(1, 2))
+    con = mk_contest(I, id="con", cards=10, candidates=["A", "B"], winner=["A"])
+    cards, vals = cards_with_values(S, I, n, u_a, pools=None)
+    assorter = abstract_assorter(S, I, con, u_a, vals)
+    m, exc = guard(S, I, lambda: I.call(I.getattr(assorter, "mean"), [cards], {"use_style": use_style}))
+    if exc:
+        return
+    sm, exc = guard(S, I, lambda: I.call(I.getattr(assorter, "sum"), [cards], {"use_style": use_style}))
+    if exc:
+        return
+    c = ctx()
+    tot, cnt = ZERO, 0
+    for cv, a in vals:
+        if c.decide(True if not use_style else has_contest(cv, "con")):
+            tot = xadd(tot, a)
+            cnt += 1
+    S.eq("sum = sum of assort over the cards in the population (those listing the contest under style)", sm, tot)
+    if cnt:
+        S.eq("mean = that sum / their number", m, xdiv_np(tot, XR.const(cnt)))
+    else:
+        S.holds("mean of an empty population is NaN", xr(m).nan)
+
+
+@script(["C03"], "Assorter.set_tally_pool_means/post (bounded: n cards, 2 pools)", variants=tuple((n[0], s) for n in LISTN for s in ("style", "nostyle")))
+def set_tally_pool_means_post(S, I, variant):
+    n = int(variant[0][1:])
+    use_style = variant[1] == "style"
+    u_a = S.real("u_a", lo=Fraction(1, 2))
+    con = mk_contest(I, id="con", cards=10, candidates=["A", "B"], winner=["A"])
+    cards, vals = cards_with_values(S, I, n, u_a)
+    assorter = abstract_assorter(S, I, con, u_a, vals)
+    _, exc = guard(S, I, lambda: I.call(I.getattr(assorter, "set_tally_pool_means"), [], {"cvr_list": cards, "use_style": use_style}))
+    if exc:
+        return
+    means = assorter.attrs["tally_pool_means"]
+    c = ctx()
+    exp = {}
+    for cv, a in vals:
+        if c.decide(bterm(cv.attrs["pool"])):
+            p = cv.attrs["tally_pool"]
+            tot, cnt = exp.get(p, (ZERO, 0))
+            if c.decide(True if not use_style else has_contest(cv, "con")):
+                tot, cnt = xadd(tot, a), cnt + 1
+            exp[p] = (tot, cnt)
+    S.holds("one mean per pooled tally pool", isinstance(means, dict) and set(means.keys()) == set(exp.keys()))
+    if isinstance(means, dict) and set(means.keys()) == set(exp.keys()):
+        for p, (tot, cnt) in exp.items():
+            if cnt:
+                S.eq(f"[{p}] mean n_p = sum of assort over the pool's cards in the population", xmul(means[p], XR.const(cnt)), tot)
+                S.holds(f"[{p}] mean in [0,u]", band(xcmp(">=", means[p], ZERO), xcmp("<=", means[p], u_a)))
+            else:
+                S.holds(f"[{p}] NaN for a pool with no card in the population", xr(means[p]).nan)
+
+
+@script(["C03", "C06"], "Assertion.set_margin_from_cvrs/post (bounded: n cards)", variants=tuple((n[0], a) for n in (("n1",), ("n2",)) for a in ("POLLING", "CARD_COMPARISON", "ONEAUDIT")))
+def set_margin_from_cvrs_post(S, I, variant):
+    n = int(variant[0][1:])
+    atype = variant[1]
+    use_style = S.boolean("use_style")
+    u_a = S.real("u_a", lo=Fraction(1, 2))
+    con = mk_contest(I, id="con", cards=10, candidates=["A", "B"], winner=["A"], audit_type=atype)
+    cards, vals = cards_with_values(S, I, n, u_a, pools=None)
+    assorter = abstract_assorter(S, I, con, u_a, vals)
+    NM = I.get("shangrla.core.NonnegMean", "NonnegMean")
+    test = Obj(NM, {"u": S.real("stale_u", lo_strict=0)})
+    asn = Obj(I.get(MOD, "Assertion"), {"contest": con, "assorter": assorter, "margin": None, "test": test, "winner": "A", "loser": "B",
+                                        "p_value": 1, "p_history": [], "proved": False, "sample_size": None, "estim": None, "bet": None,
+                                        "test_kwargs": {}})
+    stratum = Obj(I.get(MOD, "Stratum"), {"use_style": use_style, "max_cards": 10})
+    audit = Obj(I.get(MOD, "Audit"), {"strata": {"s": stratum}})
+    _, exc = guard(S, I, lambda: I.call(I.getattr(asn, "set_margin_from_cvrs"), [], {"audit": audit, "cvr_list": cards}))
+    if exc:
+        return
+    c = ctx()
+    us = c.decide(bterm(use_style))
+    tot, cnt = ZERO, 0
+    for cv, a in vals:
+        if c.decide(True if not us else has_contest(cv, "con")):
+            tot, cnt = xadd(tot, a), cnt + 1
+    if cnt == 0:
+        S.holds("margin of an empty population is NaN", xr(asn.attrs["margin"]).nan)
+        return
+    mean = xdiv_np(tot, XR.const(cnt))
+    v = xsub(xmul(XR.const(2), mean), ONE)
+    S.eq("margin = 2 mean(assort over the population) - 1", asn.attrs["margin"], v)
+    if atype == "POLLING":
+        S.eq("test.u = assorter bound", test.attrs["u"], u_a)
+    else:
+        S.eq("test.u = 2/(2 - v/u_assorter)", test.attrs["u"], xdiv_np(XR.const(2), xsub(XR.const(2), xdiv_np(v, u_a))))
+
+
+# ------------------------------------------------------------------ C02f: Contest.tally (bounded)
+
+@script(["C02"], "Contest.tally/post (bounded: n cards, 3 candidates)", variants=tuple((n[0], e) for n in (("n1",), ("n2",)) for e in ("enforce", "noenforce")))
+def contest_tally_post(S, I, variant):
+    n = int(variant[0][1:])
+    enforce = variant[1] == "enforce"
+    cands = ["A", "B", "C"]
+    k = S.choose("n_winners", [1, 2])
+    con = mk_contest(I, id="con", cards=10, candidates=cands, winner=["A"], n_winners=k, choice_function="PLURALITY")
+    irv = mk_contest(I, id="irv", cards=10, candidates=cands, winner=["A"], choice_function="IRV")
+    cards = [rec_card(S, f"cvr{i}", sym_cvr(I, f"cvr{i}", {"con": cands})) for i in range(n)]
+    fn = I.get(MOD, "Contest.tally")
+    _, exc = guard(S, I, lambda: I.call(fn, [], {"con_dict": {"con": con, "irv": irv}, "cvr_list": cards, "enforce_rules": enforce}))
+    if exc:
+        return
+    tally = con.attrs["tally"]
+    for cand in cands:
+        exp = 0
+        for cv in cards:
+            marks = 0
+            for c2 in cands:
+                marks = mkint(iadd(marks, iite(card_vote(cv, "con", c2), 1, 0)))
+            counted = band(card_vote(cv, "con", cand), True if not enforce else icmp("<=", marks, k))
+            exp = mkint(iadd(exp, iite(counted, 1, 0)))
+        got = I.getitem(tally, cand)
+        S.holds(f"tally[{cand}] = number of cards with a mark for {cand} that pass the rule filter", icmp("==", got, exp))
+    S.holds("IRV contest is not tabulated", irv.attrs["tally"] is None)
+
+
+# ------------------------------------------------------------------ C03e: pooled CVRs list every contest of their pool (bounded)
+
+@script(["C03"], "CVR.pool_contests+add_pool_contests/post (bounded: n cards, 2 pools, 2 contests)", variants=(("n1",), ("n2",), ("n3",)))
+def pool_contests_post(S, I, variant):
+    n = int(variant[0][1:])
+    cards = []
+    for i in range(n):
+        tp = S.choose(f"tally_pool{i}", ["p1", "p2"])
+        cards.append(rec_card(S, f"cvr{i}", sym_cvr(I, f"cvr{i}", {"c1": ["A"], "c2": ["A"]}, tally_pool=tp)))
+    pc = I.get(MOD, "CVR.pool_contests")
+    apc = I.get(MOD, "CVR.add_pool_contests")
+    before = [(has_contest(cv, "c1"), has_contest(cv, "c2")) for cv in cards]
+    pools, exc = guard(S, I, lambda: I.call(pc, [cards], {}))
+    if exc:
+        return
+    c = ctx()
+    # expected: for each pool with a pooled card, the union of the contests on its pooled cards
+    exp = {}
+    for cv, (h1, h2) in zip(cards, before):
+        if c.decide(bterm(cv.attrs["pool"])):
+            s_ = exp.setdefault(cv.attrs["tally_pool"], set())
+            if c.decide(h1):
+                s_.add("c1")
+            if c.decide(h2):
+                s_.add("c2")
+    got = {k: set(v) for k, v in pools.items()}
+    S.holds("pool_contests: union of contests over the pooled cards of each pool", got == exp)
+    _, exc = guard(S, I, lambda: I.call(apc, [cards, pools], {}))
+    if exc:
+        return
+    for cv, (h1, h2) in zip(cards, before):
+        pooled = c.decide(bterm(cv.attrs["pool"]))
+        for cid, hb in (("c1", h1), ("c2", h2)):
+            want = bor(hb, pooled and cid in exp.get(cv.attrs["tally_pool"], set()))
+            S.holds(f"[{cv.attrs['id']}] lists {cid} afterwards iff it did before or its pool does", biff(has_contest(cv, cid), want))
+            # an added contest is empty, so every shipped assorter scores it as a non-vote (1/2)
+            if pooled and cid in exp.get(cv.attrs["tally_pool"], set()):
+                inner = cv.attrs["votes"].vals[cid]
+                S.holds(f"[{cv.attrs['id']}] a contest added to {cid} carries no mark", bimp(bnot(hb), bnot(card_vote(cv, cid, "A"))))
